@@ -280,6 +280,7 @@ static void check_stdin_at_end(void)
 
 struct c02cfg {
   int script, size, em, pv, insize;
+  int fork; /* the child is the forked side of a fork-mode start (no exec: nothing closes descriptors for the library) */
 };
 
 static void c02_body(const struct c02cfg *c, int sched_bound)
@@ -292,13 +293,13 @@ static void c02_body(const struct c02cfg *c, int sched_bound)
   vk_cfg.sched_bound = sched_bound;
   vk_cfg.vlimit = 24;
   vk_cfg.hello_lite = 1;
-  snprintf(key, sizeof key, "h_c02|script=%s|size=%d|stderr=%s|loop=%s|stdin=%d", sd->fmt, c->size, em_names[c->em], pv_names[c->pv], c->insize);
+  snprintf(key, sizeof key, "h_c02|script=%s|size=%d|stderr=%s|loop=%s|stdin=%d%s", sd->fmt, c->size, em_names[c->em], pv_names[c->pv], c->insize, c->fork ? "|fork-mode" : "");
   hx_desc("%s", key);
-  snprintf(key, sizeof key, "h_c02|stderr=%s|loop=%s", em_names[c->em], pv_names[c->pv]);
+  snprintf(key, sizeof key, "h_c02|stderr=%s|loop=%s%s", em_names[c->em], pv_names[c->pv], c->fork ? "|fork-mode" : "");
   hx_begin();
   vk_set_hang_hook(c02_hang);
   /* comparable with a free run: small payloads (one kernel write each) and loops whose results do not depend on how fast the child is */
-  S->free_run_ok = c->size <= 7 && c->insize <= 7 && c->pv != PV_NONBLOCK && c->pv != PV_NB_READ_FIRST && c->pv != PV_SEQ_EINTR;
+  S->free_run_ok = c->size <= 7 && c->insize <= 7 && c->pv != PV_NONBLOCK && c->pv != PV_NB_READ_FIRST && c->pv != PV_SEQ_EINTR && !c->fork;
   vk_autonomous_gap_ms = 60; /* no timeouts in this harness: the gap only has to dwarf the parent's own call sequence */
   memset(got, 0, sizeof got);
   memset(eof_seen, 0, sizeof eof_seen);
@@ -330,7 +331,15 @@ static void c02_body(const struct c02cfg *c, int sched_bound)
   vk_script(script);
   P = hx_new();
   vk_cfg.sched_on = 0;
-  int r = hx_start(P, hx_helper_argv(), o);
+  int r;
+  if (c->fork) {
+    vk_cfg.fork_mode = 1;
+    vk_cfg.fork_child_first = 1;
+    o.fork = true;
+    r = hx_start(P, NULL, o);
+    if (vk_side != 0) hx_forked_side(P, r);
+    if (r == 0) r = -1;
+  } else r = hx_start(P, hx_helper_argv(), o);
   vk_cfg.sched_on = 1;
   if (r < 0) vk_finish(OUT_INFRA, "start failed in the stream harness: %d", r);
   CH = &vk_children[0];
@@ -440,9 +449,22 @@ static void build(void)
               if (pv == PV_SEQ3 && size > CAP + 1 && !tier) continue;
               if (!tier && e == EM_PARENT && sc != 1 && sc != 2) continue;
               if (!tier && sd->uses_stdin && (pv == PV_SEQ70000 || pv == PV_SEQ1 || pv == PV_ZERO_FIRST)) continue;
-              struct c02cfg c = { sc, size, e, pv, sd->uses_stdin ? in_sizes[is] : 0 };
+              struct c02cfg c = { sc, size, e, pv, sd->uses_stdin ? in_sizes[is] : 0, 0 };
               store[tier][n++] = c;
             }
+    }
+    /* fork mode: the scripts that read stdin to its end, and one that only writes */
+    for (int sc = 0; sc < NSCRIPTS; sc++) {
+      const struct script_def *sd = &scripts[sc];
+      if (!(sd->uses_stdin || sc == 1)) continue;
+      for (int e = 0; e < 2; e++)
+        for (int pvi = 0; pvi < 3; pvi++)
+          for (int is = 0; is < (sd->uses_stdin ? NINSIZES : 1); is++) {
+            static const int pvs[3] = { PV_SEQ4096, PV_POLL, PV_DRAIN };
+            if (!tier && (is == 1 || is == 3)) continue;
+            struct c02cfg c = { sc, 7, e, pvs[pvi], sd->uses_stdin ? in_sizes[is] : 0, 1 };
+            store[tier][n++] = c;
+          }
     }
     cfgs[tier] = store[tier];
     ncfgs[tier] = n;
